@@ -10,6 +10,10 @@ THEOREMS = [
     'Sbepp.Properties.C02.message_size',
 ]
 EXT = False
+WALK_MODULE = 'Sbepp.Properties.C02Walk'
+WALK_THEOREMS = ['Sbepp.Properties.C02Walk.' + t for t in (
+    'first_dynamic_pos_spec', 'next_dynamic_pos_spec', 'message_level_pos_spec', 'message_cursor_size_spec',
+    'groupPos_zero_is_kernel', 'endDs_step_is_kernel')]
 SALT = 2
 
 
@@ -86,7 +90,8 @@ def run_decode(chk, module, theorems, ext, salt, n_quick=32, n_thorough=120, ext
 
 def run(chk):
     from .. import c02bswap as B
-    run_decode(chk, MODULE, THEOREMS + B.THEOREMS, EXT, SALT, extra_targets=(B.MODULE,), extra=B.correspond)
+    run_decode(chk, MODULE, THEOREMS + B.THEOREMS + WALK_THEOREMS, EXT, SALT,
+               extra_targets=(B.MODULE, WALK_MODULE), extra=B.correspond)
     chk.assumptions += [
         'byte order: the compiled-in byteswap branch (compiler intrinsics / std::byteswap) is compared with the byte '
         'reversal specification on value grids only (its semantics is the compiler\'s); the portable branch and the '
